@@ -174,3 +174,12 @@ Proof.
   cbv zeta. rewrite glue_date_diff. destruct (o_pdate_new (o_year self) (o_month self) (o_day self)) as [s|x]; cbn [bind]; [|reflexivity].
   destruct (glue_Interval_new_delta d s false); reflexivity.
 Qed.
+
+(* pendulum.naive(fields of a native naive operand): a pendulum DateTime with the same wall value and the DEFAULT fold = 1
+   (Model/IntervalLen.v normalise_operand: `mkep true false 0 0 false _ W true`) *)
+Theorem glue_naive_operand o : wall_in_range (o_wall o) = true ->
+  glue_pendulum_naive_7 (o_year o) (o_month o) (o_day o) (o_hour o) (o_minute o) (o_second o) (o_microsecond o) = Ok (mkgobj 3 (o_wall o) 1 None).
+Proof.
+  intros R. unfold glue_pendulum_naive_7, glue_pendulum_naive, o_pdt_new, o_year, o_month, o_day, o_hour, o_minute, o_second, o_microsecond.
+  rewrite (nat_new_fields (o_gdt o) None 1 R (or_intror eq_refl)). reflexivity.
+Qed.
